@@ -75,6 +75,32 @@ func runC04(c *Ctx) {
 	r.Rule("create", "host creation sites carry the discovery conditions of their family", 12)
 	r.Rule("online", "online transition and sibling-offline conditions", 20)
 	r.Rule("ageing", "purge selections and deletion conditions", 5)
+	// the address a station is recorded under follows its online transitions: the stores MACEntry.IP4 / IP6GUA / IP6LLA =
+	// host.Addr.IP in onlineTransition depend only on the family of the address, on "not online yet" and on "differs from
+	// the recorded one" (a further condition - "the station has other hosts" - leaves the recorded address stale, and the
+	// next change back to it is not seen as a change: two IPv4 addresses of one MAC stay online)
+	if ot := c.A.Method("", "Session", "onlineTransition"); ot != nil {
+		allowed := regexp.MustCompile(`^!?(\(arg0\.Addr\.IP==arg0\.MACEntry\.(IP4|IP6GUA|IP6LLA)\)|arg0\.Online|\(net/netip\.Addr\)\.(Is4|Is6|IsGlobalUnicast|IsLinkLocalUnicast)\(arg0\.Addr\.IP\))$`)
+		core.EachInstr(ot, func(i ssa.Instruction) {
+			st, ok := i.(*ssa.Store)
+			if !ok || !regexp.MustCompile(`^arg0\.MACEntry\.(IP4|IP6GUA|IP6LLA)$`).MatchString(norm(st.Addr)) {
+				return
+			}
+			var extra []string
+			for _, g := range guardsOf(i) {
+				if !allowed.MatchString(g.Text) {
+					extra = append(extra, g.Text)
+				}
+			}
+			stt, det := core.Proved, ""
+			if len(extra) > 0 {
+				stt = core.Violated
+				det = "onlineTransition records the station's address in " + norm(st.Addr) + " only if also " + strings.Join(extra, " && ") + ": when that is false the recorded address goes stale, a later change back to it is not recognised, and the sibling addresses are not taken offline"
+			}
+			r.Add(core.Obligation{Rule: "online", Key: "online onlineTransition records " + norm(st.Addr) + " on every change", Func: core.FuncName(ot), Pos: c.P.Pos(core.PosOf(i)), Status: stt,
+				Basis: "conditions: family of the address, not online, differs from the recorded address", Detail: det})
+		})
+	}
 	// a frame from a tracked host refreshes the host's own LastSeen wherever it refreshes the station's: in
 	// findOrCreateHostWithLock every store to MACEntry.LastSeen has a store to the host's LastSeen in the same block (a
 	// refresh "only while online" leaves a host that comes back with the timestamp it went offline with)
